@@ -245,16 +245,16 @@ def seeds_ok(i: int, envk: int) -> bool:
 
 
 # ---------------------------------------------------------------- (c) identifier-like runs through Lexer.wrap
-NAMECH = ["a", "1", "·", "é", "_", "٣", "℘", "́", "︳", "℮"]
+NAMECH = ["a", "1", "·", "é", "_", "٣", "℘", "́"]
 
 
 def name_ok(cs: List[int], ctx: int) -> bool:
     """
-    pre: 1 <= len(cs) <= 3 and all(0 <= c < len(NAMECH) for c in cs) and 0 <= ctx <= 3
+    pre: 1 <= len(cs) <= 3 and all(0 <= c < len(NAMECH) for c in cs) and ctx == 0
     post: _
     """
     s = "".join(NAMECH[pick(c, len(NAMECH))] for c in cs)
-    k = pick(ctx, 4)
+    k = P.get("ctx", 0) if ctx == 0 else 0
     with NoTracing():
         src = ["{{ %s }}", "{%% set %s = 1 %%}{{ %s }}", "{{ x.%s }}", "{%% macro %s(%s) %%}{%% endmacro %%}"][k].replace("%s", s)
         return all(load_ok(e, src) for e in (ENVS["default"], ENVS["async"]))
@@ -321,20 +321,25 @@ def conditions(tier, seed):
                             param={"delims": dl, "line": line, "trim": line}, replay="smt_replay", timeout=120, bounds="every state-preserving rule of the live rule table"))
     out.append(Cond("seed corpus loads or fails with TemplateSyntaxError", "seeds_ok", mode="B", param={}, timeout=to,
                     witnesses=[[0, 0], [2, 3], [18, 1]], bounds=f"{len(SEEDS) + len(EXT_SEEDS)} seeds x 5 environments"))
-    n = 3 if th else 2
-    leads = {"{{": [[], ["a"], ["a", "("], ["a", "["], ["a", "|"], ["a", "is"], ["(", "a"], ["a", "if"], ["[", "1"], ["{", "'s'"]],
-             "{%": [[], ["set"], ["for"], ["if"], ["macro"], ["call"], ["block"], ["from"], ["import"], ["include"], ["with"], ["filter"], ["set", "a"], ["for", "a", "in"], ["macro", "a", "("], ["call", "("], ["from", "'s'", "import"]]}
+    leads = {"{{": [[], ["a"], ["a", "("], ["a", "["], ["a", "|"], ["a", "is"], ["(", "a"], ["a", "if"], ["[", "1"], ["{", "'s'"], ["a", "(", "a", "="], ["a", "[", "1", ":"],
+                    ["a", ".", "a", "("], ["a", "if", "a", "else"], ["not", "a"], ["a", "in"], ["-", "a"], ["a", "**"], ["a", "(", "*"]],
+             "{%": [[], ["set"], ["for"], ["if"], ["macro"], ["call"], ["block"], ["from"], ["import"], ["include"], ["with"], ["filter"], ["set", "a"], ["for", "a", "in"],
+                    ["macro", "a", "("], ["call", "("], ["from", "'s'", "import"], ["set", "a", "|"], ["for", "a", ",", "b", "in", "a"], ["macro", "a", "(", "a", ","],
+                    ["call", "(", "a", ")"], ["include", "'s'"], ["import", "'s'", "as"], ["block", "a"], ["with", "a", "="], ["extends"], ["autoescape"], ["if", "a", "%}", "{%"],
+                    ["for", "a", "in", "a", "%}", "{%"], ["set", "a", "%}", "{%"], ["endif"], ["raw"]]}
     envs = ["default", "ext", "sandbox", "async"] if th else ["default", "ext"]
     k = 0
     for envk in envs:
         for first, ls in leads.items():
             for lead in ls:
                 k += 1
-                if not th and envk != "default" and (k + seed) % 3:
+                if envk != "default" and (k + seed) % (2 if th else 4):
                     continue
+                deep = (k + seed) % (3 if th else 7) == 0
+                n = (3 if deep else 2) if th else (2 if deep else 1)
                 out.append(Cond(f"tokens[{envk}] {first} {' '.join(lead)} + <= {n} more", "seq_ok", mode="B",
-                                param={"env": envk, "first": first, "lead": lead, "n": n}, timeout=to,
-                                witnesses=[[0] * n, [45, 46, 47][:n] + [0] * max(0, n - 3), [len(KW) + 8, 43, len(KW) + 9][:n] + [0] * max(0, n - 3)],
+                                param={"env": envk, "first": first, "lead": lead, "n": n}, timeout=to * (3 if n > 1 else 1),
+                                witnesses=[[[0] * n], [([45, 46, 47] * 2)[:n]], [([len(KW) + 8, 43, len(KW) + 9] * 2)[:n]]],
                                 bounds=f"fixed lead + up to {n} further tokens from the {len(KW) + len(OPS) + len(LITS) + len(STRUCT)}(+{len(EXTKW)})-token alphabet, pruned by what the real parser asks for"))
     ns = 3
     total = len(SEEDS)
@@ -347,6 +352,7 @@ def conditions(tier, seed):
                             param={"env": envk, "lo": lo, "nseeds": min(ns, tot - lo)}, timeout=to,
                             witnesses=[[0, 1, 0, 0], [0, 3, 2, 5], [0, 2, 3, 0], [0, 4, 1, 0]],
                             bounds="every single-token deletion, duplication, swap and replacement (35 replacement tokens) of each seed, alone and embedded between text lines"))
-    out.append(Cond("identifier-like character runs", "name_ok", mode="B", param={}, timeout=to,
-                    witnesses=[[[0, 2], 0], [[1, 0], 1], [[5], 2]], bounds=f"1..3 characters from {NAMECH!r} in 4 syntactic positions"))
+    for cx in range(4):
+        out.append(Cond(f"identifier-like character runs[position {cx}]", "name_ok", mode="B", param={"ctx": cx}, timeout=to,
+                        witnesses=[[[0, 2], 0], [[1, 0], 0], [[5], 0]], bounds=f"1..3 characters from {NAMECH!r}"))
     return out
